@@ -309,7 +309,7 @@ def run(ctx):
             return decide_all_equal([('s', bound.get('s', 0), S), ('s_tol', bound.get('s_tol', 0), Rat.sym('tol')), ('maxits', bound.get('maxits', 0), Rat.sym('mi')),
                                      ('error', bound.get('error', 0), Rat.sym('err')), ('min_depth', bound.get('min_depth', 0), Rat.sym('md')),
                                      ('result', r, Rat.sym('R'))])
-        opts = arc_opts(mdl) if cname == 'Arc' else {}
+        opts = dict(arc_opts(mdl) if cname == 'Arc' else {}, time_limit=20)
         ob('R07.5').run(f, '%s.ilength forwards its arguments' % cname, th5, judge5, allowed_raises=('AssertionError', 'ValueError'), opts=opts)
 
     # concrete straight-but-unevenly-parameterised Beziers (all control points on one line, speed not constant): whatever route
@@ -340,7 +340,7 @@ def run(ctx):
             ok = (arc(t) - S).is_zero()
             return ok, '' if ok else 'returns t = %s without inverting the arc length: length(0, t) = %s, not s' % (short(t, 30), short(arc(t), 40))
         ob('R07.5').run(f, '%s%r.ilength(s) inverts the arc length' % (cname, tuple(pts)), th6, judge6, allowed_raises=('AssertionError', 'ValueError'),
-                        opts={'presign': [(S, '+'), (S - total, '-')]})
+                        opts={'presign': [(S, '+'), (S - total, '-')], 'time_limit': 20})
 
 
 def _is_midpoint(e):
